@@ -28,6 +28,24 @@ Theorem C16_verify_never_unverified : forall cfg history,
 Proof. exact verify_never_unverified. Qed.
 Print Assumptions C16_verify_never_unverified.
 
+(* ... and not after a restart under a CHANGED configuration either: for every sequence of earlier
+   deployments (each with its own storage / signature mode / fetch mode / strictness and its own history),
+   after a restart under 'verify' no list is in force whose signature did not verify.  (A list persisted by a
+   lenient configuration counts only if the certificate that verified it was stored with it and is still
+   usable as a signer; whether the implementation performs this check is read from the source.) *)
+Theorem C16_verify_after_reconfiguration : forall deployments cfg history,
+  r_sigmode cfg = SigVerify ->
+  let s := run_segments deployments init_state in
+  let st := snd (fst (run_steps cfg (fst s, restart cfg (snd s)) history)) in
+  forall id e l, In (id, e) (entries st) -> e_list e = Some l -> l_sig_ok l = true /\ l_parse_ok l = true.
+Proof. exact verify_after_reconfiguration. Qed.
+Print Assumptions C16_verify_after_reconfiguration.
+
+Example C16_reconfiguration_nonvacuous :
+  snd (run_steps (cfg_disk SigVerifyLog) (fst (run_segments [seg_log] init_state), restart (cfg_disk SigVerifyLog) (snd (run_segments [seg_log] init_state))) [SHandshake cert_103]) = [Some VAccept] /\
+  snd (run_steps (cfg_disk SigVerify) (fst (run_segments [seg_log] init_state), restart (cfg_disk SigVerify) (snd (run_segments [seg_log] init_state))) [SHandshake cert_103]) = [Some VError].
+Proof. exact reconfiguration_example. Qed.
+
 (* under 'verify_log' and 'none' refreshes keep succeeding whatever the signer *)
 Theorem C16_lenient_refresh : forall cfg ev id e l avail,
   r_sigmode cfg <> SigVerify -> e_locs e = id -> id <> [] -> ev (hd 0%N id) = Serve l -> l_parse_ok l = true ->
